@@ -455,6 +455,30 @@ func All() []Program {
 			old, loaded := m.Swap("k", 9)
 			return fmt.Sprint(wins.Load(), v == old, loaded, m.CompareAndDelete("k", 9))
 		}, []string{"1 true true true"}},
+		{"deadline-derived-contexts", func() string {
+			// a context derived from one that ends by its deadline reports
+			// DeadlineExceeded; derived from one that was cancelled first, Canceled
+			d1, c1 := context.WithTimeout(context.Background(), time.Millisecond)
+			defer c1()
+			child1, cc1 := context.WithCancel(d1)
+			defer cc1()
+			grand1, cg1 := context.WithCancelCause(child1)
+			defer cg1(nil)
+			<-grand1.Done()
+			d2, c2 := context.WithTimeout(context.Background(), 1000*time.Hour)
+			child2, cc2 := context.WithCancel(d2)
+			defer cc2()
+			c2()
+			<-child2.Done()
+			p3, cp3 := context.WithCancel(context.Background())
+			d3, c3 := context.WithTimeout(p3, 1000*time.Hour)
+			defer c3()
+			child3, cc3 := context.WithCancel(d3)
+			defer cc3()
+			cp3()
+			<-child3.Done()
+			return fmt.Sprint(d1.Err(), "|", child1.Err(), "|", grand1.Err(), "|", context.Cause(grand1), "|", child2.Err(), "|", child3.Err(), "|", d3.Err())
+		}, []string{"context deadline exceeded|context deadline exceeded|context deadline exceeded|context deadline exceeded|context canceled|context canceled|context canceled"}},
 		{"map-range", func() string {
 			m := map[string]int{"a": 1, "b": 2, "c": 3}
 			s := 0
